@@ -9,7 +9,7 @@ from ..runner import Outcome, Part
 
 ID = "C13"
 TITLE = "Pin radial temperatures are ordered and obey radial heat conduction"
-TECHNIQUE = "property-based testing (Hypothesis): pin models built through the real input path from generated Fuel-/PinModel sections, called with generated powers and film coefficients and read back after sweep steps; closed forms for film, clad and gap drops, independent shell-by-shell re-solve of the pellet, monotonicity pairs"
+TECHNIQUE = "property-based testing (Hypothesis): pin models built through the real input path from generated Fuel-/PinModel sections, called with generated powers and film coefficients and read back after sweep steps; closed forms for film, clad and gap drops, independent shell-by-shell re-solve of the pellet, monotonicity pairs; swept film drop against a film coefficient derived in the harness and the pin power delivered"
 RULE = ("generated assemblies with a FuelModel (1-5 zones, solid/annular, metal-fuel compositions, bonded or gas gap) or a "
         "PinModel (user pin materials with T-dependent conductivity per zone); (a) PinModel.calculate_temperatures called "
         "directly with linear powers 0..2e5 W/m, film coefficients 1e3..2e5 and coolant temperatures; (b) pin_temps read "
